@@ -81,9 +81,10 @@ Record schema := {
 Definition features := list name.
 
 (** ** Document *)
-(** TypeInfo.ExpectedTypes[v] (None = no entry) and TypeInfo.DefaultValues[v] != nil *)
-Record vann := { va_expected : option sty; va_default : bool }.
-Definition no_vann : vann := {| va_expected := None; va_default := false |}.
+(** TypeInfo.ExpectedTypes[v] (None = no entry), TypeInfo.DefaultValues[v] != nil, and whether v is
+    in TypeInfo.ScalarLiteralValues *)
+Record vann := { va_expected : option sty; va_default : bool; va_scalar : bool }.
+Definition no_vann : vann := {| va_expected := None; va_default := false; va_scalar := false |}.
 
 Inductive value :=
 | VVar (a : vann) (n : name) (dollar npos : pos)
